@@ -267,6 +267,8 @@ pub enum UnOp {
     FlatMap(FlatFn),
     Shuffle,
     Repl(Repl),
+    /// repartition_by(replication, |e| (e.key % m) as u64): group-by connection chosen by the user
+    RepartBy(Repl, u16),
     Batch(Bm),
     Gb(GbForm, AggFn),
     Gl(GlForm, AggFn),
